@@ -284,6 +284,109 @@ def zip_program(h, o1, o2, rng, allow_add=True, p_fail=0.0):
             s2.xs[pos - 1] = s2.norm(v2)
 
 
+def mixed_iter_program(h, o, rng):
+    """an iterator session interleaved with DIRECT calls on the iterated array (legal for an index-based
+    iterator): between two iterator calls, with probability ~0.2, the array is extended or shortened behind
+    the iterator's back, so the cursor may end up beyond the content; every iterator call is then issued
+    regardless of whether it can succeed.  The shadow follows the positional semantics (Spec.SSeq.Pos)."""
+    s = h.sh[o]
+    suf = h.suffix(o)
+    h.ops.append(f"it_new{suf}")
+    pos, removed = 0, False
+    for _ in range(rng.randint(2, len(s.xs) + 6)):
+        if rng.random() < 0.2:
+            d = rng.choice(["add", "add_at0", "remove_last", "remove_at0", "remove_all", "trim", "remove_at_mid"])
+            if d == "add":
+                v = h.val(); h.ops.append(f"add {v}{suf}"); s.xs.append(s.norm(v))
+            elif d == "add_at0":
+                v = h.val(); h.ops.append(f"add_at {v} 0{suf}"); s.xs.insert(0, s.norm(v))
+            elif d == "remove_last":
+                h.ops.append(f"remove_last{suf}" + (" noout=1" if rng.random() < 0.3 else ""))
+                if s.xs: s.xs.pop()
+            elif d == "remove_at0":
+                h.ops.append(f"remove_at 0{suf}")
+                if s.xs: del s.xs[0]
+            elif d == "remove_at_mid":
+                i = len(s.xs) // 2
+                h.ops.append(f"remove_at {i}{suf}")
+                if i < len(s.xs): del s.xs[i]
+            elif d == "remove_all":
+                h.ops.append(f"remove_all{suf}"); s.xs.clear()
+            else:
+                h.ops.append(f"trim_capacity{suf}")
+        r = rng.random()
+        if r < 0.45:
+            h.ops.append("it_next")
+            if pos < len(s.xs):
+                pos += 1; removed = False
+        elif r < 0.6:
+            h.ops.append("it_remove" + (" noout=1" if rng.random() < 0.3 else ""))
+            if not removed and pos >= 1 and pos - 1 < len(s.xs):
+                del s.xs[pos - 1]; pos -= 1; removed = True
+        elif r < 0.75:
+            v = h.val(); h.ops.append(f"it_add {v}")
+            if pos <= len(s.xs):
+                s.xs.insert(pos, s.norm(v)); pos += 1
+        elif r < 0.88:
+            v = h.val(); h.ops.append(f"it_replace {v}" + (" noout=1" if rng.random() < 0.3 else ""))
+            if pos >= 1 and pos - 1 < len(s.xs):
+                s.xs[pos - 1] = s.norm(v)
+        else:
+            h.ops.append("it_index")
+
+
+def mixed_zip_program(h, o1, o2, rng):
+    """the same for a zip iterator over two arrays (or one array on both sides when o1 == o2)"""
+    h.ops.append(f"zit_new o={o1} o2={o2}")
+    same = o1 == o2
+    s1, s2 = h.sh[o1], h.sh[o2]
+    pos, removed = 0, False
+    for _ in range(rng.randint(2, min(len(s1.xs), len(s2.xs)) + 6)):
+        if rng.random() < 0.2:
+            t = rng.choice([o1, o2]); st = h.sh[t]; suf = h.suffix(t)
+            d = rng.choice(["add", "remove_last", "remove_at0", "remove_all", "trim"])
+            if d == "add":
+                v = h.val(); h.ops.append(f"add {v}{suf}"); st.xs.append(st.norm(v))
+            elif d == "remove_last":
+                h.ops.append(f"remove_last{suf}")
+                if st.xs: st.xs.pop()
+            elif d == "remove_at0":
+                h.ops.append(f"remove_at 0{suf}")
+                if st.xs: del st.xs[0]
+            elif d == "remove_all":
+                h.ops.append(f"remove_all{suf}"); st.xs.clear()
+            else:
+                h.ops.append(f"trim_capacity{suf}")
+        r = rng.random()
+        n1, n2 = len(s1.xs), len(s2.xs)
+        if r < 0.45:
+            h.ops.append("zit_next")
+            if pos < n1 and pos < n2:
+                pos += 1; removed = False
+        elif r < 0.6:
+            h.ops.append("zit_remove" + (" noout=1" if rng.random() < 0.3 else ""))
+            if pos >= 1 and pos - 1 < n1 and pos - 1 < n2 and not removed:
+                del s1.xs[pos - 1]
+                if not same:
+                    del s2.xs[pos - 1]
+                elif pos - 1 < len(s1.xs):
+                    del s1.xs[pos - 1]
+                pos -= 1; removed = True
+        elif r < 0.75:
+            v1, v2 = h.val(), h.val(); h.ops.append(f"zit_add {v1} {v2}")
+            if pos <= n1 and pos <= n2:
+                s1.xs.insert(pos, s1.norm(v1))
+                s2.xs.insert(pos, s2.norm(v2))
+                pos += 1
+        elif r < 0.88:
+            v1, v2 = h.val(), h.val(); h.ops.append(f"zit_replace {v1} {v2}")
+            if pos >= 1 and pos - 1 < n1 and pos - 1 < n2:
+                s1.xs[pos - 1] = s1.norm(v1)
+                s2.xs[pos - 1] = s2.norm(v2)
+        else:
+            h.ops.append("zit_index")
+
+
 def zip_same_program(h, o, rng, p_fail=0.0):
     """a zip iterator with the SAME array on both sides (ar1 == ar2): every call acts twice on one array
     (a refused growth inside the second add_at used to be swallowed: repaired as A11,
@@ -497,6 +600,24 @@ class ArraySizedGen:
                                 ops += ["zit_new o=0 o2=0", "zit_index", "zit_next"] + ([a1, "zit_index"] if a1 else [])
                                 ops += ["zit_next"] + ([a2, "zit_index"] if a2 else []) + ["zit_next", "foreach_zip o=0 o2=0", "capacity", "destroy"]
                                 out.append(ops)
+        # self-zip x capacity {1, 2} x every fill level x fail=k (k = 1: growth pre-check, 2: the second
+        # add_at's growth, 3: none left) x factor, followed by a plain add and a sweep
+        for cap in (1, 2):
+            for n in range(1, cap + 1):
+                for ex in ("2", "1.5", "3"):
+                    for k in (1, 2, 3):
+                        for steps in (1, n):
+                            out.append([f"new esize=2 cap={cap} exp={ex}"] + [f"add {i + 1}" for i in range(n)] +
+                                       ["zit_new o=0 o2=0"] + ["zit_next"] * steps + [f"zit_add 8 9 fail={k}", "zit_index", "zit_add 6 7",
+                                        "zit_next", "zit_remove", "add 5", "foreach_zip o=0 o2=0", "capacity", "destroy"])
+        # the cursor left behind by direct calls: shortened, emptied, extended array; every iterator call
+        for direct in (["remove_last"], ["remove_all"], ["remove_at 0", "remove_at 0"], ["add 9", "trim_capacity"], ["remove_all", "add 7"]):
+            for call in ("it_next", "it_remove", "it_add 4", "it_replace 4", "it_index"):
+                out.append(["new esize=3 cap=2 exp=1.5", "add 1", "add 2", "add 3", "it_new", "it_next", "it_next", "it_next"] + direct +
+                           [call, "it_index", "it_next", "it_add 5", "it_remove", "foreach", "destroy"])
+            for call in ("zit_next", "zit_remove", "zit_add 4 5", "zit_replace 4 5", "zit_index"):
+                out.append(["new esize=3 cap=2 exp=1.5", "new o=1 esize=1 cap=4 exp=2", "add 1", "add 2", "add 3", "add 11 o=1", "add 12 o=1", "add 13 o=1",
+                            "zit_new o=0 o2=1", "zit_next", "zit_next", "zit_next"] + direct + [call, "zit_index", "zit_next", "zit_add 6 7", "foreach_zip o=0 o2=1", "destroy"])
         # refusals on an aliased zit_add: in the growth pre-check and inside the second add_at (A11)
         for cap, n, ex in ((1, 1, "2"), (2, 1, "2"), (2, 2, "1.5"), (3, 2, "2"), (3, 3, "1.1")):
             for k in (1, 2):
@@ -660,6 +781,114 @@ class ArraySizedGen:
              "zit_next", "foreach_zip o=0 o2=0", "destroy"],
         ]
 
+    # ------------------------------------------------------------------ scale
+    def scale(self, rng, tier):
+        """a few LONG histories (ROUND12 A): >= 1100 records, constructor capacities around powers of two,
+        factors 1.01 .. 3, every element size; several hundred operations after the fill that hit the front,
+        the middle and the back.  Sessions are `obs=sparse phys=quiet` (buffers as checksums, full dump on
+        `observe` every ~50 ops).  Two histories use MiB-sized buffers (element sizes 4096 and 65536: growth
+        beyond 1 MiB steps); for those the byte-level Lean model is switched off (`model=off`: the driver
+        answers `S ?`/`M ?`), the C side runs with sanitizers, ledger, walkers and the growth-count hook."""
+        quick = tier == "quick"
+        plans = [(1, 257, "1.01", 1500, 300), (3, 1, "3", 1200, 260), (8, 1023, "2", 1100, 200), (17, 1025, "1.5", 1100, 130)]
+        if not quick:
+            for _ in range(14):
+                plans.append((rng.choice([1, 3, 8, 17]), rng.choice([1, 7, 8, 9, 255, 256, 257, 300, 1000, 1023, 1024, 1025, 4100]),
+                              rng.choice(["1.01", "1.5", "2", "3"]), rng.randint(1100, 1500), rng.randint(150, 400)))
+        out = [self._scale_one(rng, *pl) for pl in plans]
+        out.append(self._scale_big(4096, 1, "2", 3000))
+        out.append(self._scale_big(65536, 8, "2", 300))
+        if not quick:
+            out.append(self._scale_big(4096, 7, "3", 6000))
+            out.append(self._scale_big(65536, 1, "1.5", 400))
+        return out
+
+    def _scale_big(self, dl, cap, ex, n):
+        ops = [f"new esize={dl} cap={cap} exp={ex} obs=sparse phys=quiet model=off"]
+        for i in range(n):
+            ops.append(f"add {i * 2654435761 % 2 ** 40}")
+            if i % 97 == 96:
+                ops.append(f"get_at {i // 2}")
+        ops += ["capacity", "size", "observe", "remove_at 0", f"remove_at {n // 3}", "remove_last", f"get_at {n - 4}", f"add_at 7 {n // 2}",
+                "reverse", "trim_capacity", "capacity", "observe", "destroy"]
+        return ops
+
+    def _scale_one(self, rng, dl, cap, ex, n, post):
+        h = Hist(rng, dl, cap, ex, make_pool(rng, dl))
+        h.ops[0] += " obs=sparse phys=quiet"
+        sh = h.sh[0]
+        for i in range(n):
+            v = (i * 2654435761 + 12345) % (256 ** dl) if rng.random() < 0.8 else h.val()
+            h.ops.append(f"add {v}")
+            sh.xs.append(sh.norm(v))
+            if i % 50 == 49 and rng.random() < 0.3:
+                h.ops.append(f"get_at {rng.randrange(len(sh.xs))}")
+        h.ops.append("observe")
+        since = 0
+        # whole-array operations cost the byte-level Lean model n memcpy's over the whole buffer: budgeted
+        heavy = max(2, 30000 // (n * dl))
+        for _ in range(post):
+            m = len(sh.xs)
+            where = rng.choice([0, 0, m // 3, m // 2, max(m - 1, 0), max(m - 1, 0)])
+            r = rng.random()
+            if r < 0.2 and m:
+                h.ops.append(f"remove_at {where}" + (" noout=1" if rng.random() < 0.3 else "")); del sh.xs[where]
+            elif r < 0.28 and m:
+                h.ops.append("remove_last"); sh.xs.pop()
+            elif r < 0.45:
+                v = h.val(); i = rng.choice([0, m // 3, m]); h.ops.append(f"add_at {v} {i}"); sh.xs.insert(i, sh.norm(v))
+            elif r < 0.52:
+                v = h.val(); h.ops.append(f"add {v}"); sh.xs.append(sh.norm(v))
+            elif r < 0.62 and m:
+                h.ops.append(f"{rng.choice(['get_at', 'peek'])} {rng.choice([0, m // 3, m - 1, m])}")
+            elif r < 0.68 and m:
+                v = h.val(); h.ops.append(f"replace_at {v} {where}"); sh.xs[where] = sh.norm(v)
+            elif r < 0.73 and m:
+                h.ops.append(f"swap_at 0 {m - 1}"); sh.xs[0], sh.xs[m - 1] = sh.xs[m - 1], sh.xs[0]
+            elif r < 0.76 and m:
+                v = rng.choice(sh.xs); h.ops.append(f"remove {v}"); sh.xs.remove(v)
+            elif r < 0.78 and m and dl <= 3:
+                h.ops.append(f"index_of {rng.choice(sh.xs)}")
+            elif r >= 0.78 and r < 0.94 and r not in () and (r < 0.84 or r >= 0.88) and heavy <= 0 and not (0.82 <= r < 0.84):
+                h.ops.append(f"get_at {where}" if m else "size")
+            elif r < 0.80:
+                heavy -= 1; h.ops.append("reverse"); sh.xs.reverse()
+            elif r < 0.82:
+                heavy -= 1
+                cm = rng.choice(["asc", "desc", "m10"]); h.ops.append(f"sort cmp={cm}"); sh.xs.sort(key=sort_key(cm))
+            elif r < 0.84:
+                h.ops.append("trim_capacity")
+            elif r < 0.86 and m > 3:
+                h.ops += [f"mk_sub {m // 3} {2 * m // 3} to=1", "add 5 o=1", "get_last o=1", "drop o=1"]
+            elif r < 0.88:
+                h.ops += ["mk_copy to=1", "add 5 o=1", "remove_at 0 o=1", "observe", "drop o=1"]
+            elif r < 0.90 and m:
+                heavy -= 1
+                h.ops += ["mk_filter p=mod3 to=2", "size o=2", "drop o=2"]
+            elif r < 0.92 and m:
+                # iterator sweep over the first part with removals and additions
+                heavy -= 1
+                h.ops.append("it_new"); pos = 0
+                for k in range(min(m, 60)):
+                    h.ops.append("it_next"); pos += 1
+                    if k % 7 == 3:
+                        h.ops.append("it_remove"); pos -= 1; del sh.xs[pos]
+                    elif k % 11 == 5:
+                        v = h.val(); h.ops.append(f"it_add {v}"); sh.xs.insert(pos, sh.norm(v)); pos += 1
+            elif r < 0.93 and m:
+                heavy -= 1
+                p = rng.choice(["even", "mod3"]); h.ops.append(f"filter_mut p={p}"); sh.xs[:] = [v for v in sh.xs if pred(p, v, dl)]
+            elif r < 0.94:
+                heavy -= 1
+                h.ops.append("map fn=inc"); sh.xs[:] = [frombytes([(b + 1) % 256 for b in tobytes(v, dl)]) for v in sh.xs]
+            else:
+                h.ops.append("size")
+            since += 1
+            if since >= 50:
+                h.ops.append("observe"); since = 0
+        h.ops += ["observe", "destroy"]
+        return h.ops
+
     # ------------------------------------------------------------------ random
     def random(self, rng, n, tier, focus=None):
         out = []
@@ -720,6 +949,7 @@ class ArraySizedGen:
         p_der = {"derived": 0.15, "all": 0.05, "fault": 0.15}.get(focus, 0)
         p_sort = {"sort": 0.2, "all": 0.04}.get(focus, 0)
         p_fail = {"all": 0.05}.get(focus, 0)
+        p_mixed = {"iter": 0.08, "all": 0.03, "fault": 0.03}.get(focus, 0)
         p_zsame = {"iter": 0.04, "growth": 0.02, "all": 0.02, "fault": 0.04}.get(focus, 0)
         allow_it_add = True
         i = 0
@@ -731,7 +961,16 @@ class ArraySizedGen:
                 o = live[0]
             r = rng.random()
             if rng.random() < p_zsame:
-                zip_same_program(h, o, rng, p_fail=4 * p_fail)
+                if rng.random() < 0.35:
+                    mixed_zip_program(h, o, o, rng)
+                else:
+                    zip_same_program(h, o, rng, p_fail=4 * p_fail)
+                continue
+            if rng.random() < p_mixed:
+                if 1 in h.sh and rng.random() < 0.3:
+                    mixed_zip_program(h, 0, 1, rng)
+                else:
+                    mixed_iter_program(h, o, rng)
                 continue
             if r < p_iter:
                 iter_program(h, o, rng, allow_it_add, p_fail=4 * p_fail)
